@@ -147,6 +147,10 @@ impl Model {
 
 fn req(ep: u8, token: &[u8], path: &str, mid: u16) -> CoapRequest<Ep> {
     let mut p = Packet::new();
+    // requests arrive as Confirmable or Non-confirmable messages (both are legal for a GET with Observe)
+    if (ep as usize + token.len() + path.len()) % 2 == 1 {
+        p.header.set_type(coap_lite::MessageType::NonConfirmable);
+    }
     p.header.message_id = mid;
     p.set_token(token.to_vec());
     // Uri-Path segments verbatim ("/x" = an empty first segment followed by "x"): the resource name
@@ -663,6 +667,7 @@ pub fn run_observe(ctx: &mut Ctx, which: &str) {
         rep.floor("token_pair_histories_held", 1);
         directed_limit_changes(rep, which, is15, level);
         rep.floor("limit_change_histories_held", 1);
+        resource_conservation(rep, if level == 0 { 300 } else { 400_000 }, r.next_u64());
         long_lived_acknowledging(rep, level, which);
         rep.floor("long_lived_acknowledging_histories_held", 1);
     }
@@ -764,6 +769,58 @@ fn probe_check(rep: &mut Report, limit: u8, ops: &[Op], paths: &[String]) {
                 }
             }
         }
+    }
+}
+
+/// Conservation of resources: N registrations on N pairwise different paths (one endpoint and token
+/// each) leave N resources that list exactly their own observer - a Subject that keys its resources
+/// by anything narrower than the path (a digest) merges some once there are enough of them.
+fn resource_conservation(rep: &mut Report, n: u32, seed: u64) {
+    rep.eval();
+    set_case_str("observe: conservation of resources");
+    let mut s: Subject<Ep> = Subject::default();
+    let alphabet: &[u8] = b"abcdefghijklmnopqrstuvwxyz0123456789-";
+    let mut x = seed | 1;
+    let mut paths: Vec<String> = Vec::with_capacity(n as usize);
+    for k in 0..n {
+        x = x.wrapping_mul(6364136223846793005).wrapping_add(1442695040888963407);
+        let len = 3 + (x >> 59) as usize % 8;
+        let mut t = String::new();
+        let mut y = x;
+        for _ in 0..len {
+            y = y.wrapping_mul(6364136223846793005).wrapping_add(1);
+            t.push(alphabet[(y >> 33) as usize % alphabet.len()] as char);
+        }
+        if k % 3 == 0 {
+            t.push('/');
+        }
+        t.push_str(&format!("{}", k));
+        let r = req((k % 250) as u8, &(k as u32).to_be_bytes(), &t, 0);
+        if let Err(p) = guard(|| s.register(&r)) {
+            rep.violation(&p.sig(), p.text(), format!("register on {:?}", t));
+            return;
+        }
+        paths.push(t);
+    }
+    let mut bad = 0u32;
+    let mut first_bad = String::new();
+    for (k, t) in paths.iter().enumerate() {
+        let ok = match s.get_resource_observers(t) {
+            Some(l) => l.len() == 1 && l[0].token == (k as u32).to_be_bytes() && l[0].endpoint.0 == (k % 250) as u8,
+            None => false,
+        };
+        if !ok {
+            bad += 1;
+            if first_bad.is_empty() {
+                first_bad = format!("{:?} lists {:?}", t, s.get_resource_observers(t).map(|l| l.iter().map(|o| (o.endpoint.0, hex(&o.token))).collect::<Vec<_>>()));
+            }
+        }
+    }
+    if bad > 0 {
+        rep.violation("distinct-paths-share-a-resource", format!("{} of {} registered paths do not list exactly their own observer; first: {}", bad, n, first_bad), format!("{} registrations on pairwise different paths, seed {}", n, seed));
+    } else {
+        rep.count("resource_conservation_runs_held");
+        rep.add("distinct_resources_counted", n as u64);
     }
 }
 
